@@ -10,7 +10,7 @@ git -C $R apply $P || { git -C /repo worktree remove --force $R; exit 3; }
 MODS=$(grep '^+++ b/' $P | sed 's/^+++ b\///; s/\.py$//; s/\/__init__$//' | awk -F/ '{print $NF}')
 FILES=""
 for m in $MODS; do FILES="$FILES $(cd $R && grep -rlE "(import|from) .*\b$m\b|\.$m\b" tests --include='test_*.py' | tr '\n' ' ')"; done
-FILES=$(echo $FILES tests/api/test_api_solve.py | tr ' ' '\n' | sort -u | grep -v test_infra_communication | tr '\n' ' ')
+FILES=$(echo $FILES | tr ' ' '\n' | sort -u | grep -v "test_infra_communication\|test_api_solve" | tr '\n' ' ')
 timeout 1500 /verif/tools/baseline.py $R $FILES > /verif/seeded/$ID/tests_with_change.txt 2>&1; RC=$?
 echo "files: $FILES" >> /verif/seeded/$ID/tests_with_change.txt
 echo "$ID rc=$RC $(grep '^passed' /verif/seeded/$ID/tests_with_change.txt)"
